@@ -128,6 +128,9 @@ class Watcher:
     updated: set[str] = attrs.field(init=False, factory=set)
     """Files created or modified while the watcher is active."""
 
+    silent: set[str] = attrs.field(init=False, factory=set)
+    """The members of `deleted` and `updated` that only matter for detached nodes: not reported."""
+
     files_changed_events: set[asyncio.Event] = attrs.field(init=False, factory=set)
     """The events of the subscribers waiting for the next relevant file change.
 
@@ -224,7 +227,8 @@ class Watcher:
             # so an unchanged file does not count as an nglob change.
             for path, new_file_hash in new_hashes.items():
                 if new_file_hash == old_hashes[path]:
-                    await self.reporter("UNCHANGED", path)
+                    if path not in self.silent:
+                        await self.reporter("UNCHANGED", path)
                     self.updated.discard(path)
 
             # Mark steps pending if they use nglob patterns that have different matches.
@@ -235,6 +239,7 @@ class Watcher:
         # so a subscriber never wakes up for changes that are no longer recorded.
         self.deleted.clear()
         self.updated.clear()
+        self.silent.clear()
         for event in self.files_changed_events:
             event.clear()
         self.end_watching.clear()
@@ -255,28 +260,48 @@ class Watcher:
             The build is writing its own outputs then,
             so only a change to a static file counts as news.
         """
+        # A change that only matters for a detached node (see `Workflow.change_is_remembered`)
+        # is recorded like any other, so the hash and the glob matches kept for that node stay
+        # up to date, but it is not reported and does not wake up anyone:
+        # it does not affect the workflow as it is now.
         if change == Change.DELETED and path not in self.deleted:
             if self.workflow.change_is_relevant(path, during_build=during_build):
                 await self.reporter("DELETED", path)
                 self.deleted.add(path)
                 self.updated.discard(path)
+                self.silent.discard(path)
                 for event in self.files_changed_events:
                     event.set()
+            elif self.workflow.change_is_remembered(path, during_build=during_build):
+                self.deleted.add(path)
+                self.updated.discard(path)
+                self.silent.add(path)
         elif change == Change.UPDATED and path not in self.updated:
             if self.workflow.change_is_relevant(path, during_build=during_build):
                 await self.reporter("UPDATED", path)
                 self.deleted.discard(path)
                 self.updated.add(path)
+                self.silent.discard(path)
                 for event in self.files_changed_events:
                     event.set()
+            elif self.workflow.change_is_remembered(path, during_build=during_build):
+                self.deleted.discard(path)
+                self.updated.add(path)
+                self.silent.add(path)
         elif change == Change.DELETED_PARENT:
             for sub_path in self.workflow.relevant_paths_under(path, during_build=during_build):
                 if sub_path not in self.deleted:
                     await self.reporter("DELETED", sub_path)
                     self.deleted.add(sub_path)
                     self.updated.discard(sub_path)
+                    self.silent.discard(sub_path)
                     for event in self.files_changed_events:
                         event.set()
+            for sub_path in self.workflow.remembered_paths_under(path, during_build=during_build):
+                if sub_path not in self.deleted:
+                    self.deleted.add(sub_path)
+                    self.updated.discard(sub_path)
+                    self.silent.add(sub_path)
 
 
 @attrs.define
